@@ -33,11 +33,16 @@ MAPPING_CLASSES = ["none", "none", "shift", "permute", "negate", "large", "many_
 BACK_CLASSES = ["default", "default", "int64", "narrow", "mapping"]
 
 
+HUGE_CORNERS = [{"ndim": 1, "dist": "verysparse", "mapping": "none", "common": "omitted"},
+                {"ndim": 2, "dist": "verysparse", "mapping": "none", "common": "omitted"},
+                {"ndim": 1, "dist": "skew", "mapping": "shift", "common": "frequent"}]
+
+
 def shards(tier):
     if tier == "quick":
         return [{"label": "mix%d" % i, "kind": "mix", "n": 9000, "crash_is_violation": True} for i in range(13)] + \
                [{"label": "rowscan", "kind": "rowscan", "n": 1000, "crash_is_violation": True},
-                {"label": "huge", "kind": "huge", "n": 3, "crash_is_violation": True, "mem_gib": 12},
+                {"label": "huge", "kind": "huge", "n": 5, "crash_is_violation": True, "mem_gib": 12},
                 {"label": "wide", "kind": "wide", "n": 12, "crash_is_violation": True, "mem_gib": 12}]
     out = [{"label": "mix%d" % i, "kind": "mix", "n": 70000, "crash_is_violation": True} for i in range(13)]
     out += [{"label": "rowscan%d" % i, "kind": "rowscan", "n": 8000, "crash_is_violation": True} for i in range(3)]
@@ -48,7 +53,8 @@ def shards(tier):
 
 
 # --------------------------------------------------------------------------- #
-def make_case(rng, kind):
+def make_case(rng, kind, force=None):
+    force = force or {}
     if kind == "rowscan":
         # >=5 distinct values and a tiny uncommon share: drives the per-row scan strategy
         n = gen.pick(rng, [80, 81, 120, 200, 500, 1000, 3000])
@@ -91,6 +97,8 @@ def make_case(rng, kind):
     if kind == "huge":
         ndim = 1 if rng.random() < 0.75 else 2
         dist = gen.pick(rng, ["verysparse", "sparse", "sparse", "skew"])
+    ndim = force.get("ndim", ndim)
+    dist = force.get("dist", dist)
     if kind == "wide" and acls == "small":
         ndim = 2
     if ndim == 2:
@@ -116,6 +124,7 @@ def make_case(rng, kind):
 
     # common class
     ccls = gen.wpick(rng, [("omitted", 4), ("frequent", 2), ("rare", 2), ("absent", 2)])
+    ccls = force.get("common", ccls)
     if n == 0 or not present:
         ccls = gen.pick(rng, ["absent", "absent", "omitted"])
     common = None
@@ -133,7 +142,7 @@ def make_case(rng, kind):
             ccls = "omitted"
 
     # mapping class
-    mcls = gen.pick(rng, MAPPING_CLASSES)
+    mcls = force.get("mapping", gen.pick(rng, MAPPING_CLASSES))
     domain = list(dict.fromkeys(present + ([common] if common is not None else [])))
     mapping = None
     if mcls != "none" and domain:
@@ -185,8 +194,12 @@ def make_case(rng, kind):
 
 def cases(ctx):
     kind = ctx.shard["kind"]
-    for _ in range(ctx.shard["n"]):
-        yield make_case(ctx.rng, kind)
+    for i in range(ctx.shard["n"]):
+        force = None
+        if kind == "huge":
+            # the first cases of every huge shard are the fixed corners (both strategies, both ranks); the rest is drawn
+            force = HUGE_CORNERS[i] if i < len(HUGE_CORNERS) else None
+        yield make_case(ctx.rng, kind, force)
 
 
 def vmap(mapping, arr):
